@@ -86,9 +86,9 @@ def cases(spec, ctx):
     # (sequence-less locations: nothing in the property bounds the magnitude of a coordinate)
     srng = __import__("random").Random(f"C01-scale:{ctx.seed}:{i}")
     for k in range(sc["NR"] // (8 * n) + 1):
-        g = srng.choice([400, 2000, 6000])
+        g = srng.choice([1000, 3000, 6000])
         ov = srng.random() < 0.3
-        nb = srng.choice([srng.randint(9, 30), srng.randint(17, 40), srng.randint(33, 70), srng.randint(64, 150)])
+        nb = srng.choice([srng.randint(9, 30), srng.randint(17, 40), srng.randint(33, 70), srng.randint(64, 150), srng.randint(129, 300)])
         blocks = ()
         while len(blocks) < 9:
             blocks = G.rand_layout(srng, g, nb, overlap=ov)
